@@ -26,7 +26,8 @@ MANIFEST = dict(
          "and struct instances, compared after every statement; the machine is tied to /repo by C02's Rc-graph comparison.",
     note="Theorems cover the fragment `frag` (slot assignment, `every` assignment through slices, op-assign with append/++/+/|./-./||/|.. also with a default `(x[p][k] = d) f= e`, "
          "pop/remove/consume, swap, for-loops, update expressions, mutating calls, getter closures), i.e. every form of the statement "
-         "language except non-`every` slice assignment (todo!() in the interpreter, F11). Trusted: Coq kernel; hand-written machine "
+         "language except non-`every` slice assignment (todo!() in the interpreter, F11) and the two forms `every x[p] f= e` and "
+         "`(x and y) f= e`, which are NOT covered by the theorems, only by the correspondence and C02's graph comparison. Trusted: Coq kernel; hand-written machine "
          "Rc/Cow.v and spec Rc/ValueSem.v (tie to the code is differential testing on generated histories + C02's graph isomorphism); "
          "extraction + OCaml runner; Rust harness; Python generator/renderer. Builtins other than the consuming ones are outside the model.",
     design="6-C01")
@@ -120,6 +121,10 @@ def sx_stmt(s):
         return f"(opmod {s[1]} {sx_path(s[2])} {s[3]} {1 if s[4] else 0} {s[5]} {sx_lop(s[6])})"
     if t == "opdef":
         return f"(opdef {s[1]} {sx_path(s[2])} {sx_val(s[3])} {s[4]} {sx_expr(s[5])})"
+    if t == "everyop":
+        return f"(everyop {s[1]} {sx_path(s[2])} {s[3]} {sx_expr(s[4])})"
+    if t == "andop":
+        return "(andop (" + " ".join(f"({x} {sx_path(q)})" for x, q in s[1]) + f") {s[2]} {sx_expr(s[3])})"
     if t == "for":
         return f"(for {s[1]} {sx_path(s[2])} " + " ".join(sx_stmt(x) for x in s[3]) + ")"
     raise ValueError(s)
@@ -245,6 +250,10 @@ def r_stmt(s):
         return f"{nm(s[1])}{r_path(s[2])} {BOPS[s[3]]}= " + (f"[{rhs}]" if s[4] else f"({rhs})")
     if t == "opdef":
         return f"({nm(s[1])}{r_path(s[2])} = {r_val(s[3])}) {BOPS[s[4]]}= {r_expr(s[5])}"
+    if t == "everyop":
+        return f"every {nm(s[1])}{r_path(s[2])} {BOPS[s[3]]}= {r_expr(s[4])}"
+    if t == "andop":
+        return "(" + " and ".join(f"{nm(x)}{r_path(q)}" for x, q in s[1]) + f") {BOPS[s[2]]}= {r_expr(s[3])}"
     if t == "for":
         return f"for (it <- {nm(s[1])}{r_path(s[2])}) (" + "; ".join(r_stmt(x) for x in s[3]) + ")"
     raise ValueError(s)
@@ -739,6 +748,10 @@ class Gen:
                 wrap = r.random() < 0.6
                 f = "concat" if wrap else r.choice(["append", "append", "concat"])
                 return ("opmod", x, p, f, wrap, y, m)
+        if k < 0.47:
+            got = self.everyop(st, x) if r.random() < 0.55 else self.andop(st, x, lo)
+            if got is not None:
+                return got
         if k < 0.50:
             # op-assign with a default: (x[p][k] = d) f= e  - the slot is a key of a dictionary (without default) reached through
             # one or more indices; when the key is missing the operator starts from d
@@ -785,6 +798,55 @@ class Gen:
         p, _ = self.anynode(v)
         q, _ = self.anynode(st[y])
         return ("swap", x, p, y, q)
+
+    def everyop(self, st, x):
+        """every x[p] f= e : through index paths and list slices; about a third of the time the operator fails on some element
+        (an element of another kind in the slice): the variable must keep its old value"""
+        r = self.r
+        v = st[x]
+        if r.random() < 0.7:
+            got = self.pick(v, lambda n: n[0] == "L" and nitems(n) > 0)
+            if got is None:
+                return None
+            q, node = got
+            n = len(node[1])
+            sl = ("sl", r.choice([None, None, 0, 1, -2]), r.choice([None, None, n, -1, 2]))
+            elems = node[1]
+            tail = []
+            if r.random() < 0.3 and elems and elems[0][0] in ("L", "D", "X"):
+                ch = self.children(elems[0])
+                if ch:
+                    tail = [r.choice(ch)[0]]
+                    elems = [c for e in elems for pe, c in self.children(e) if pe == tail[0]] or [ch[0][1]]
+            el = r.choice(elems)
+            if el[0] not in ("L", "V", "B", "D", "I"):
+                el = ("L", [])
+            f = self.bop_for(el)
+            return ("everyop", x, list(q) + [sl] + tail, f, ("lit", self.arg_for(el, f)))
+        p, node = self.anynode(v, stop=0.4)
+        if node[0] not in ("L", "V", "B", "D", "I"):
+            return None
+        f = self.bop_for(node)
+        e = ("lit", self.arg_for(node, f)) if r.random() < 0.7 or f in ("addkey", "delkey", "update", "union") else self.expr(st, 1)
+        return ("everyop", x, p, f, e)
+
+    def andop(self, st, x, lo):
+        """(x[p] and y[q] [and z[s]]) f= e : targets of one kind (so that the same operator applies), possibly the same variable,
+        overlapping or aliased"""
+        r = self.r
+        kind = r.choice(["L", "L", "L", "I", "D", "V"])
+        cands = [(y, q, n) for y in range(lo, len(st)) for q, n in self.nodes(st[y]) if n[0] == kind]
+        mine = [c for c in cands if c[0] == x]
+        if not mine or len(cands) < 2:
+            return None
+        ts = [r.choice(mine)] + [r.choice(cands) for _ in range(r.choice([1, 1, 2]))]
+        r.shuffle(ts)
+        node = ts[0][2]
+        f = self.bop_for(node)
+        if f in ("update",):
+            f = "append" if kind == "L" else "addkey"
+        e = ("lit", self.arg_for(node, f)) if r.random() < 0.6 or f in ("addkey", "delkey", "union") else self.expr(st, 1)
+        return ("andop", [(y, list(q)) for y, q, _ in ts], f, e)
 
     def opdef(self, st, x):
         r = self.r
@@ -835,6 +897,13 @@ class Gen:
             return ("assign", x, p + [self.bad_pe()] + ([self.bad_pe()] if r.random() < 0.3 else []), self.expr(st))
         if k < 0.45:
             f = r.choice(["append", "concat", "plus", "addkey", "delkey", "union", "update"])
+            c = r.random()
+            if c < 0.2:
+                return ("everyop", x, p + ([("sl", None, None)] if r.random() < 0.6 else [self.bad_pe()]), f, ("lit", self.arg_for(node, f)))
+            if c < 0.35:
+                y = r.randrange(0, len(st))
+                q, _ = self.anynode(st[y], stop=0.5)
+                return ("andop", [(x, p), (y, q)] + ([(x, p)] if r.random() < 0.3 else []), f, ("lit", self.arg_for(node, f)))
             if r.random() < 0.3:
                 # with-default read on something that is not a key of a default-less dictionary
                 pe = r.choice([self.key(), self.key(), ("i", 0), self.bad_pe()])
@@ -984,7 +1053,7 @@ def is_mutation(s):
         return True
     if s[0] in ("assign", "every"):
         return len(s[2]) > 0
-    return s[0] in ("op", "mod", "swap", "opmod", "opdef")
+    return s[0] in ("op", "mod", "swap", "opmod", "opdef", "everyop", "andop")
 
 
 def containers(v, acc):
@@ -1016,7 +1085,7 @@ def aliased_mutations(stmts, spec_tr):
     for s, (st, dump) in zip(stmts, spec_tr):
         if prev is not None and st == "ok" and is_mutation(s):
             vals = parse_canon(prev)[1]
-            x = s[2] if s[0] == "mod" else s[1]
+            x = s[2] if s[0] == "mod" else (s[1][0][0] if s[0] == "andop" else s[1])
             mine = []
             containers(vals[x], mine)
             others = []
@@ -1056,7 +1125,7 @@ def tuplify_inner(y):
 
 
 TAGS = {"N", "I", "L", "S", "V", "B", "D", "X", "i", "s", "f", "sl", "lit", "read", "get", "list", "upd", "call", "lset", "levery", "lop",
-        "lpop", "lremove", "lconsume", "assign", "every", "op", "mod", "swap", "for", "opmod", "opdef"}
+        "lpop", "lremove", "lconsume", "assign", "every", "op", "mod", "swap", "for", "opmod", "opdef", "everyop", "andop"}
 
 ALPHABET = [
     ("assign", 1, [], ("lit", ("L", [("L", [("I", 1), ("I", 2)]), ("I", 3)]))),
